@@ -6,7 +6,7 @@ import numpy as np
 from . import common, cons, hand, hist, place, universe, xt
 
 PID = "C03"
-FORMS = ["py", "nd", "ndF", "ndS", "cap", "xobj-other", "xobj-ctx", "xobj-nested", "xobj-slack", "ref-same", "ref-foreign", "xobj-view", "xobj-nested-view"]
+FORMS = ["py", "nd", "ndF", "ndS", "cap", "xobj-other", "xobj-ctx", "xobj-nested", "xobj-slack", "ref-same", "ref-foreign", "xobj-view", "xobj-nested-view", "xobj-capslack", "xobj-twin"]
 PL = ["dirtyhole", "dirtyhole2", "hole", "explicit", "ba-hole", "grown", "al64"]
 
 
@@ -175,7 +175,7 @@ def places_for(tier):
     def f(t, form):
         if form == "py":
             return PL if (tier == "thorough" or xt.depth(t) <= 1) else ["dirtyhole", "dirtyhole2", "grown"]
-        if form in ("cap", "xobj-slack"):
+        if form in ("cap", "xobj-slack", "xobj-capslack"):
             return ["dirtybig", "dirtybig2"]
         if form in ("ref-same", "ref-foreign"):
             return ["cap0"]
